@@ -1,7 +1,7 @@
 """Expression evaluation (code mode and spec mode share one translator)."""
 import ast
 import z3
-from .ty import Ty, INT, REAL, BOOL, NONE, STR, Ref, List, Seq, Opt, Tuple, sort_of, elem_key, parse_ty
+from .ty import Ty, INT, REAL, BOOL, NONE, STR, EXT, Ref, List, Seq, Opt, Tuple, sort_of, elem_key, parse_ty
 from .state import SV, PyVal, mk_int, mk_real, mk_bool, mk_none, mk_str, mk_tuple, mk_seq, str_id
 from .ctx import Unsupported, RaiseSig, PathEnd
 
@@ -81,6 +81,11 @@ class ExprMixin:
         k = ty.kind
         if k == "real" and v.ty.is_num:
             return SV(REAL, self.to_real(v))
+        if k == "ext" and v.ty.is_num:
+            return SV(EXT, self.to_real(v), z3.IntVal(0))
+        if k == "real" and v.ty.kind == "ext" and st is not None:
+            self.ctx.oblige(st, "safe:finite", v.aux == 0, text="extended real used where a finite value is needed")
+            return SV(REAL, v.t)
         if k == "int" and v.ty.kind in ("int", "bool"):
             return SV(INT, self.to_int(v))
         if k == "bool" and v.ty.kind == "bool":
@@ -130,6 +135,8 @@ class ExprMixin:
             return v.t != 0
         if k == "real":
             return v.t != 0
+        if k == "ext":
+            return z3.Or(v.aux != 0, v.t != 0)
         if k == "none":
             return z3.BoolVal(False)
         if k == "ref":
@@ -161,6 +168,10 @@ class ExprMixin:
         return self.read_loc(key, ty, obj.t, st, spec)
 
     def read_loc(self, key, ty, ref, st, spec=False):
+        if ty.kind == "ext":
+            arr = st.harr(key, z3.ArraySort(z3.IntSort(), z3.RealSort()))
+            sarr = st.harr(key + "!s", z3.ArraySort(z3.IntSort(), z3.IntSort()))
+            return SV(EXT, rd(arr, ref), rd(sarr, ref))
         if ty.kind == "opt":
             arr = st.harr(key, z3.ArraySort(z3.IntSort(), sort_of(ty.arg)))
             narr = st.harr(key + "?", z3.ArraySort(z3.IntSort(), z3.BoolSort()))
@@ -184,6 +195,12 @@ class ExprMixin:
 
     def write_loc(self, key, ty, ref, val, st):
         val = self.coerce(val, ty, st)
+        if ty.kind == "ext":
+            arr = st.harr(key, z3.ArraySort(z3.IntSort(), z3.RealSort()))
+            sarr = st.harr(key + "!s", z3.ArraySort(z3.IntSort(), z3.IntSort()))
+            st.hset(key, z3.Store(arr, ref, val.t))
+            st.hset(key + "!s", z3.Store(sarr, ref, val.aux))
+            return
         if ty.kind == "opt":
             arr = st.harr(key, z3.ArraySort(z3.IntSort(), sort_of(ty.arg)))
             narr = st.harr(key + "?", z3.ArraySort(z3.IntSort(), z3.BoolSort()))
@@ -311,6 +328,8 @@ class ExprMixin:
                 return mk_int(st.entry.heap.get("$alloc", self.ctx.initial_array("$alloc")))
             if node.id in ("True", "False"):
                 return mk_bool(node.id == "True")
+            if node.id == "inf":
+                return SV(EXT, z3.RealVal(0), z3.IntVal(1))
         g = self.global_name(node.id, st)
         if g is not None:
             return g
@@ -340,6 +359,9 @@ class ExprMixin:
         ety = items[0].ty
         if any(i.ty.kind == "real" for i in items) and all(i.ty.is_num for i in items):
             ety = REAL
+        hint = self.pending_list_type
+        if hint is not None and hint.kind == "list" and hint.arg.kind == "real" and all(i.ty.is_num for i in items):
+            ety = REAL      # a list of int literals that is stored where floats live ([0] * n for velocities)
         arr = self.ctx.fresh("lit", z3.ArraySort(z3.IntSort(), sort_of(ety)))
         for i, it in enumerate(items):
             arr = z3.Store(arr, i, self.coerce(it, ety, st).t)
@@ -354,6 +376,8 @@ class ExprMixin:
         if isinstance(node.op, ast.Not):
             return mk_bool(z3.Not(self.truthy(v, st)))
         if isinstance(node.op, ast.USub):
+            if v.ty.kind == "ext":
+                return SV(EXT, -v.t, -v.aux)
             if v.ty.kind == "real":
                 return SV(REAL, -v.t)
             return SV(INT, -self.to_int(v))
@@ -394,6 +418,9 @@ class ExprMixin:
         if a.ty.is_num and b.ty.is_num:
             ty, x, y = self.num_pair(a, b)
             return SV(ty, z3.If(c, x, y))
+        if (a.ty.kind == "ext" or b.ty.kind == "ext") and (a.ty.is_num or a.ty.kind == "ext") and (b.ty.is_num or b.ty.kind == "ext"):
+            ea, eb = self.coerce(a, EXT, st), self.coerce(b, EXT, st)
+            return SV(EXT, z3.If(c, ea.t, eb.t), z3.If(c, ea.aux, eb.aux))
         if a.ty.kind == "none" or b.ty.kind == "none" or a.ty.kind == "opt" or b.ty.kind == "opt":
             inner = a.ty if a.ty.kind not in ("none", "opt") else (b.ty if b.ty.kind not in ("none", "opt") else (a.ty.arg if a.ty.kind == "opt" else b.ty.arg))
             oa, ob = self.coerce(a, Opt(inner), st), self.coerce(b, Opt(inner), st)
@@ -419,6 +446,14 @@ class ExprMixin:
             return self.concat(a, b, st, spec)
         if isinstance(op, ast.Mult) and a.ty.kind == "list" and b.ty.kind == "int":
             return self.list_repeat(a, b, st)
+        if (a.ty.kind == "ext" or b.ty.kind == "ext") and isinstance(op, (ast.Add, ast.Sub)):
+            ea, eb = self.coerce(a, EXT, st), self.coerce(b, EXT, st)
+            if isinstance(op, ast.Sub):
+                eb = SV(EXT, -eb.t, -eb.aux)
+            if not spec:
+                # inf + (-inf) is nan: outside the model
+                self.ctx.oblige(st, "safe:nan", z3.Not(z3.And(ea.aux != 0, eb.aux != 0, ea.aux != eb.aux)), text="inf - inf")
+            return SV(EXT, ea.t + eb.t, z3.If(ea.aux != 0, ea.aux, eb.aux))
         if not (a.ty.is_num and b.ty.is_num):
             raise Unsupported("arithmetic on %r and %r" % (a.ty, b.ty))
         ty, x, y = self.num_pair(a, b)
@@ -532,6 +567,18 @@ class ExprMixin:
             a = self.unopt(a, st, spec)
         if b.ty.kind == "opt":
             b = self.unopt(b, st, spec)
+        if a.ty.kind == "ext" or b.ty.kind == "ext":
+            ea, eb = self.coerce(a, EXT, st), self.coerce(b, EXT, st)
+            lt = lambda p, q: z3.Or(p.aux < q.aux, z3.And(p.aux == 0, q.aux == 0, p.t < q.t))
+            eq = self.ext_eq(ea, eb)
+            if isinstance(op, ast.Lt):
+                return lt(ea, eb)
+            if isinstance(op, ast.Gt):
+                return lt(eb, ea)
+            if isinstance(op, ast.LtE):
+                return z3.Or(lt(ea, eb), eq)
+            if isinstance(op, ast.GtE):
+                return z3.Or(lt(eb, ea), eq)
         if not (a.ty.is_num and b.ty.is_num):
             raise Unsupported("ordering of %r and %r" % (a.ty, b.ty))
         ty, x, y = self.num_pair(a, b)
@@ -544,6 +591,9 @@ class ExprMixin:
         if isinstance(op, ast.GtE):
             return x >= y
         raise Unsupported("comparison op")
+
+    def ext_eq(self, a, b):
+        return z3.And(a.aux == b.aux, z3.Or(a.aux != 0, a.t == b.t))
 
     def identical(self, a, b, st):
         if isinstance(a, PyVal) or isinstance(b, PyVal):
@@ -582,6 +632,8 @@ class ExprMixin:
                 return a.t == b.t
             ty, x, y = self.num_pair(a, b)
             return x == y
+        if (ka == "ext" or kb == "ext") and (a.ty.is_num or ka == "ext") and (b.ty.is_num or kb == "ext"):
+            return self.ext_eq(self.coerce(a, EXT, st), self.coerce(b, EXT, st))
         if ka == "none" or kb == "none":
             return self.identical(a, b, st)
         if ka == "opt" or kb == "opt":
@@ -711,8 +763,10 @@ class ExprMixin:
         raise Unsupported("static %r" % (s,))
 
     def module_attr(self, mod, attr):
-        if mod in ("math", "np", "numpy") and attr == "inf":
-            raise Unsupported("math.inf outside an ExtReal context")
+        if mod in ("math", "np", "numpy") and attr in ("inf", "infty", "Inf"):
+            if mod != "math" and attr != "inf":
+                raise Unsupported("numpy has no attribute %r in the installed version" % attr)
+            return SV(EXT, z3.RealVal(0), z3.IntVal(1))
         return PyVal("func", name="%s.%s" % ("np" if mod == "numpy" else mod, attr))
 
     def norm_index(self, idx_node, length, st, spec):
